@@ -36,6 +36,7 @@ def HasTyR (st : StructTable) : Ty → RExp → Prop
   | _, .split _ _ _ => False
   | _, .merge _ _ _ => False
   | _, .disabled _ _ => False
+  | t, .fork _ _ e => HasTyR st t e
 def HasTyRList (st : StructTable) : Ty → List RExp → Prop
   | _, [] => True
   | t, e :: es => HasTyR st t e ∧ HasTyRList st t es
@@ -281,6 +282,9 @@ theorem evalRT_filterR :
   | .split _ _ _, _, h => by simp [HasTyR] at h
   | .merge _ _ _, _, h => by simp [HasTyR] at h
   | .disabled _ _, _, h => by simp [HasTyR] at h
+  | .fork c ix e, t, h => by
+    have e' : filterR st t (.fork c ix e) = .fork c ix e := by simp [filterR]
+    rw [e']; exact ⟨rfl, h⟩
 theorem evalRT_filterRList :
     ∀ (rs : List RExp) (t : Ty), HasTyRList st t rs →
       evalRTList st nf ρ f t (filterRList st t rs) = evalRTList st nf ρ f t rs ∧
